@@ -581,6 +581,16 @@ func (w *World) applyContract(fr *Frame, st *State, ct *Contract, names []string
 			st.heap[k] = v
 		}
 	} else {
+		func() {
+			defer func() {
+				if r := recover(); r != nil {
+					if _, ok := r.(unsupportedErr); !ok {
+						panic(r)
+					}
+				}
+			}()
+			w.loopCallWriteCheck(fr, st, w.modTargets(&CEnv{w: w, pkg: pkg, vars: vars, cur: pre, old: pre, lets: ct.Lets}, ct))
+		}()
 		w.havocForContract(st, pre, ct, vars, pkg)
 	}
 	w.assumeResultWF(st, res)
@@ -773,7 +783,17 @@ func (w *World) modTarget(env *CEnv, e *CExpr) []modTarget {
 				ek := w.elemsKeyT(et)
 				arr := sel(w.hget(env.state(), ek), sarr(x.T))
 				return []modTarget{{key: w.fieldKey(p.Elem(), fi), member: func(q Term) Term {
-					return Term{fmt.Sprintf("(exists ((ei! Int)) (and (<= 0 ei!) (< ei! %s) (= (select %s (+ %s ei!)) %s)))", slen(x.T).S, arr.S, soff(x.T).S, q.S), SBool}
+					ex := Term{fmt.Sprintf("(exists ((ei! Int)) (and (<= 0 ei!) (< ei! %s) (= (select %s (+ %s ei!)) %s)))", slen(x.T).S, arr.S, soff(x.T).S, q.S), SBool}
+					// explicit instances at the program's index terms (each implies the
+					// existential, so the disjunction is equivalent; solvers rarely find them)
+					alts := []Term{ex}
+					for i, t := range w.indexTerms {
+						if i >= 6 {
+							break
+						}
+						alts = append(alts, and(le(intLit(0), t), lt(t, slen(x.T)), eq(sel(arr, add(soff(x.T), t)), q)))
+					}
+					return or(alts...)
 				}}}
 			case "whole":
 				// whole(T.f): the field of every object
@@ -917,6 +937,54 @@ func (w *World) postReadKeys(ct *Contract, vars map[string]*Val, pkg *types.Pack
 
 // contractKeys lists the heap keys a contract may modify (used when a call
 // occurs inside a loop).
+// contractKeySets is contractKeys split into the keys of the modifies clause
+// and the keys the postcondition reads of (possibly fresh) objects.
+func (w *World) contractKeySets(ct *Contract, callee *ssa.Function) (mod, post []string, ok bool) {
+	all := w.contractKeys(ct, callee)
+	saved := w.sc
+	w.sc = newScript()
+	vars := map[string]*Val{}
+	if callee != nil {
+		names := ct.Params
+		if len(names) == 0 {
+			for _, p := range callee.Params {
+				names = append(names, p.Name())
+			}
+		}
+		for i, p := range callee.Params {
+			if i < len(names) {
+				vars[names[i]] = &Val{T: Term{"dummy!" + names[i], w.sortOf(p.Type())}, Typ: p.Type()}
+			}
+		}
+	}
+	dry := &State{cond: tTrue, heap: map[string]Term{}, cells: map[cellID]Term{}, epoch: -1}
+	env := &CEnv{w: w, pkg: contractPkg(w, ct, callee), vars: vars, cur: dry, old: dry, lets: ct.Lets}
+	set := map[string]bool{}
+	ok = true
+	func() {
+		defer func() {
+			if r := recover(); r != nil {
+				if _, isU := r.(unsupportedErr); !isU {
+					panic(r)
+				}
+				ok = false
+			}
+		}()
+		for _, t := range w.modTargets(env, ct) {
+			set[t.key] = true
+		}
+	}()
+	w.sc = saved
+	for _, k := range all {
+		if set[k] {
+			mod = append(mod, k)
+		} else {
+			post = append(post, k)
+		}
+	}
+	return
+}
+
 func (w *World) contractKeys(ct *Contract, callee *ssa.Function) []string {
 	if ct.ModNone || (!ct.ModStated && ct.Kind != "func") {
 		if len(ct.Ensures) == 0 {
